@@ -148,6 +148,10 @@ HAND = [
     ('four-values', 'class A:\n    def run(self): pass\nclass B:\n    def run(self): pass\nclass C:\n    def run(self): pass\nclass D:\n    def run(self): pass\nif 1:\n    x = A()\nelif 2:\n    x = B()\nelif 3:\n    x = C()\nelse:\n    x = D()\nx.run\n', [(17, 5), (17, 2)]),
     ('elif-no-else', 'if 1:\n    x = 1\nelif 2:\n    x = 2\nx\nif 3:\n    if 4:\n        y = 1\n    elif 5:\n        y = 2\nelse:\n    if 6:\n        y = 3\ny\n', [(5, 1), (14, 1)]),
     ('import-conditional-elif', 'from m3 import backend\nbackend\nimport m3\nm3.backend\n', [(2, 7), (4, 10)]),
+    ('case-variants', 'error = 1\nError = 2\nERROR = 3\nmatch = 4\nMatch = 5\nclass K:\n    Value = 1\n    value = 2\n    VALUE = 3\nK.value\n', [(10, 2), (10, 7)]),
+    ('case-variants-names', 'error = 1\nError = 2\nERROR = 3\nmatch = 4\nMatch = 5\ner\n', [(6, 2), (6, 0)]),
+    ('conditional-base', 'import os\nclass A:\n    def run(self): pass\n    a = 1\nclass B:\n    def run(self): pass\n    b = 2\nif os:\n    Base = A\nelse:\n    Base = B\nclass Service(Base):\n    def go(self):\n        self.run\nService().run\n', [(14, 16), (15, 13), (15, 10)]),
+    ('conditional-class-def', 'import os\nif os:\n    class C:\n        def m(self): pass\nelse:\n    class C:\n        def m(self): pass\nC().m\nC.m\n', [(8, 5), (9, 3)]),
     ('func-alts', 'if 1:\n    def f(): return 1\nelse:\n    def f(): return ""\nr = f()\nr\nf\n', [(6, 1), (7, 1)]),
     ('nested-multi', 'if 1:\n    a = 1\nelse:\n    a = 2\nif 2:\n    b = a\nelse:\n    b = 3\n    a = 4\nb\na\n', [(10, 1), (11, 1)]),
     ('while-carried', 'a = 0\nwhile a:\n    if a:\n        a = 1\n    else:\n        b = a\n        a = 2\na\n', [(6, 13), (8, 1)]),
